@@ -54,6 +54,9 @@ def make_models():
     from .plug_hdf import HdfModels  # C11: abstract h5py node (hooks gated on its own h5py.Group objects / on module gemseo.algos._hdf_database)
 
     m.plugins.insert(0, HdfModels())
+    from .plug_hdf import HdfCacheModels  # C05/C11: cache-file entry groups, dataset attributes, abstract scipy sparse arrays (gated on its own objects / module _hdf5_file_singleton)
+
+    m.plugins.insert(0, HdfCacheModels())
     from .plug_c01 import C01Models  # C01: abstract CSR matrices, record-model constructors, small Python features (gated on `c01 = True` contracts / own heap objects)
 
     m.plugins.insert(0, C01Models())
